@@ -424,6 +424,125 @@ fn gen_case(out: &mut Out, cas: &Rc<Vec<Ca>>, id: u64, seed_rng: &mut Rng, prop:
     out.stat(if nt { "cases_nontrivial" } else { "cases_trivial" }, 1);
 }
 
+/// C07: **the factory reset of the running node with the store fault on its k-th store call**, k over
+/// ALL positions of the reset (fabric keys, basic info, RTC, the CASE resumption cache, the group data
+/// counter, the networks; also "no fault"), then NO restart: the node is commissioned again at once (the
+/// new fabric gets the local index of an old one) and the peers of the OLD fabrics come back - CASE
+/// resumption with an old record, commands over an old session. Whatever the reset answered, nothing of
+/// the old fabrics may be usable on the running node. (Later in the tail: restarts, so that what the
+/// faulty reset left in the STORE is looked at as well.)
+fn gen_case_reset(out: &mut Out, cas: &Rc<Vec<Ca>>, id: u64, seed_rng: &mut Rng) {
+    let mut g = G { r: seed_rng.fork(), serial: 0, rid: 0, staged: 0, forbidden_crash: Vec::new(), deferred_case_write: false, prop: "C07", pending_hs: Vec::new(), fill: true };
+    out.case(id, &header());
+    let mut w = World::new(cas.clone());
+    fn run_op(out: &mut Out, cas: &Rc<Vec<Ca>>, g: &mut G, w: &mut World, op: &str) -> String {
+        let res = step(out, cas, w, op);
+        if op.starts_with("root ") && res.starts_with("ok") {
+            g.staged = op.split(' ').nth(2).and_then(|x| x.parse().ok()).unwrap_or(0);
+        }
+        res
+    }
+    // A: one or two committed fabrics
+    let target = *g.r.pick(&[1usize, 1, 2]);
+    for _ in 0..40 {
+        let v = w.view();
+        if v.fabrics.len() >= target && v.armed.is_none() {
+            break;
+        }
+        let op = g.progress(&v);
+        run_op(out, cas, &mut g, &mut w, &op);
+    }
+    // B: CASE sessions and resumption records on them; the cache is stored (or not)
+    for _ in 0..g.r.range(1, 3) {
+        let v = w.view();
+        if v.fabrics.is_empty() {
+            break;
+        }
+        let f = *g.r.pick(&v.fabrics);
+        let op = if g.r.chance(1, 5) { format!("hs {} {} {}", f, g.node(), g.next_rid()) } else { format!("cest {} {} {}", f, g.node(), g.next_rid()) };
+        run_op(out, cas, &mut g, &mut w, &op);
+        if g.r.chance(1, 2) {
+            run_op(out, cas, &mut g, &mut w, "flush");
+        }
+    }
+    let before = w.view();
+    let old_rids = before.rids.clone();
+    let old_sess: Vec<u32> = before.sessions.iter().filter(|s| s.2 != 0).map(|s| s.0).collect();
+    // C: the reset, the fault on its k-th store call
+    let x = g.r.below(100);
+    let k: u64 = match x {
+        0..=29 => 259,
+        30..=44 => {
+            let mut c: Vec<u64> = vec![1, 2, 3, 254, 255];
+            c.extend(before.fabrics.iter().map(|f| *f as u64));
+            *g.r.pick(&c)
+        }
+        45..=54 => 256,
+        55..=61 => g.r.range(257, 258),
+        62..=69 => 260,
+        70..=79 => 261,
+        80..=89 => 0,
+        _ => *g.r.pick(&[262u64, 1000]),
+    };
+    run_op(out, cas, &mut g, &mut w, &format!("fresetk {}", k));
+    let class = match w.last_fault_key() {
+        None => "none",
+        Some(key) if key == rs_matter::persist::CASE_RESUMPTION_KEY => "resumption",
+        Some(key) if key == rs_matter::persist::NETWORKS_KEY => "networks",
+        Some(key) if key >= 1 && key <= 255 => "fabric_key",
+        Some(_) => "other_key",
+    };
+    out.stat(&format!("freset_fault_on_{}", class), 1);
+    // D: NO restart - the node is commissioned again (the index of an old fabric is handed out again)
+    for _ in 0..12 {
+        let v = w.view();
+        if !v.fabrics.is_empty() {
+            break;
+        }
+        let op = g.progress(&v);
+        run_op(out, cas, &mut g, &mut w, &op);
+    }
+    if !w.view().fabrics.is_empty() {
+        out.stat("freset_then_index_reused", 1);
+    }
+    // E: the old peers come back
+    g.fill = false;
+    let n_tail = g.r.range(3, 8);
+    for i in 0..n_tail {
+        let v = w.view();
+        let y = if i == 0 { g.r.below(50) } else { g.r.below(100) };
+        let op = match y {
+            0..=34 => {
+                let rid = if old_rids.is_empty() || g.r.chance(1, 10) { g.r.range(1, 9) } else { *g.r.pick(&old_rids) };
+                format!("resume {} {}", rid, 100 + g.next_rid())
+            }
+            35..=49 => {
+                let s = if old_sess.is_empty() { g.r.below(4) as u32 } else { *g.r.pick(&old_sess) };
+                match g.r.below(3) {
+                    0 => format!("acl {} 77", s),
+                    1 => format!("rmfab {} 1", s),
+                    _ => format!("open {}", s),
+                }
+            }
+            50..=74 => g.progress(&v),
+            75..=82 => "flush".into(),
+            83..=92 => "restart".into(),
+            _ => {
+                let f = if v.fabrics.is_empty() { 1 } else { *g.r.pick(&v.fabrics) };
+                format!("cest {} {} {}", f, g.node(), g.next_rid())
+            }
+        };
+        run_op(out, cas, &mut g, &mut w, &op);
+    }
+    if !old_rids.is_empty() || !old_sess.is_empty() {
+        out.buf.push_str("#nt\n");
+        out.stat("cases_nontrivial", 1);
+    } else {
+        out.stat("cases_trivial", 1);
+    }
+    out.stat("cases_faulty_reset", 1);
+}
+
 /// turn a generated op list into one the handler-level path supports: no ACL / group / network
 /// writes (no Write interaction / Ethernet device there), admin subject = the CASE peer (the real
 /// access check runs), timeouts and ticks chosen so that no deadline falls within two seconds of a
@@ -440,7 +559,7 @@ fn h_compat(ops: &[String]) -> Vec<String> {
             last_sid = n(1);
         }
         match kind {
-            "freset" | "corrupt" | "hs" | "hsdone" | "coldreset" | "fabrecover" | "rt" => {}
+            "freset" | "fresetk" | "corrupt" | "hs" | "hsdone" | "coldreset" | "fabrecover" | "rt" => {}
             // a group table write goes through the real Groups cluster of endpoint 1: AddGroup needs an entry
             // of the group in the fabric's group key map first; repeated for the same group it RE-NAMES it
             "grp" => {
@@ -543,7 +662,7 @@ pub fn gen(prop: &'static str, a: &Args) -> String {
     let mut out = Out::default();
     let cas = make_cas();
     let rule = match prop {
-        "C07" => "one administrative history on the real FailSafe/Fabrics/Sessions/resumption objects, generated online (65-90% the next sensible commissioning step, rest out-of-order / other-session / time / restart / removal noise); non-trivial = a fabric disappeared (RemoveFabric, fail-safe rollback) while sessions or resumption records existed; distinct = by operation list",
+        "C07" => "one administrative history on the real FailSafe/Fabrics/Sessions/resumption objects, generated online (65-90% the next sensible commissioning step, rest out-of-order / other-session / time / restart / removal noise); every 8th history: 1-2 fabrics with CASE sessions and resumption records, the factory reset of the running node with the store fault on its k-th store call (k over all 261 positions incl. none), NO restart, re-commissioning (index re-used), then resumption with the old records / commands over the old sessions; non-trivial = a fabric disappeared (RemoveFabric, fail-safe rollback, factory reset) while sessions or resumption records existed; distinct = by operation list",
         "C11" => "one administrative history with restarts, crash points (restart from the store after the n-th mutation), store faults, factory resets and corrupted resumption blobs; non-trivial = a restart/crash/reset happened after at least one store mutation; distinct = by operation list",
         _ => "one administrative history generated online (65-90% the next sensible commissioning step, rest out-of-order / repeated / other-session commands, expiry by timer / ArmFailSafe(0) / revoke / restart, store faults); non-trivial = the fail-safe was armed, a credential/ACL/group/label/network change was accepted under it, and the fail-safe ended (completed or rolled back); distinct = by operation list",
     };
@@ -574,6 +693,11 @@ pub fn gen(prop: &'static str, a: &Args) -> String {
             run_case_h(&mut out, &cas, &crate::proto::Case { id: 2_000_000 + id, kind: String::new(), ops });
             out.buf.push_str("#nt\n");
             out.stat("cases_handler_rewrites", 1);
+        }
+        if prop == "C07" && id % 8 == 5 {
+            // the factory reset with the fault on its k-th store call, then re-commissioning without a restart
+            gen_case_reset(&mut out, &cas, id, &mut r);
+            continue;
         }
         // every 60th history fills the fabric table first (`full_tail`)
         gen_case(&mut out, &cas, id, &mut r, prop, len, id % 60 == 31);
